@@ -630,6 +630,11 @@ namespace adept {
 			    ADEPT_EXCEPTION_LOCATION);
       }
 #endif
+      if (empty()) {
+	// Nothing to assign; an empty array has no data pointer or
+	// offsets from which to compute a memory range
+	return;
+      }
       // Check for aliasing first
       Type const * ptr_begin;
       Type const * ptr_end;
